@@ -400,7 +400,7 @@ def check(run):
         ok = all(compare(E, case, b, got) is not None for b in (b1, b2, b3)) and compare(E, case, exp, g4) is not None
         run.negative_control(ok, "comparer accepted a corrupted expectation / shifted template")
         done += 1
-    if not done:
+    if not done and not mism:      # on a tree that fails everywhere the violations are the verdict
         raise MachineryError("no negative control could be run")
     run.assumptions += [
         "keywords _, gettext, ngettext; comment tag 'TRANSLATORS:'; Babel options {'encoding': enc}; lingua default keywords",
